@@ -37,7 +37,10 @@ SegmentFor(rule, b) == IF IsStar(rule.pattern) THEN FirstDigitSegment(b)
 \* value of a short digit text (branch numbers beyond u32 do not count: zerv reads them as u32)
 RECURSIVE DigitsVal(_, _, _)
 DigitsVal(t, i, acc) == IF i > Len(t) THEN acc ELSE DigitsVal(t, i + 1, acc * 10 + (t[i] - 48))
-SegNum(t) == IF t = <<>> \/ Len(StripZ(t)) > 9 THEN NONE ELSE DigitsVal(StripZ(t), 1, 0)
+\* (the first all-digit segment decides even when it does not fit: no later segment is tried; the
+\* recorders produce no values in 2^30 .. 2^32-1, which TLC integers cannot carry)
+U32Text == <<52,50,57,52,57,54,55,50,57,53>>
+SegNum(t) == IF t = <<>> \/ NumCmp(StripZ(t), U32Text) > 0 THEN NONE ELSE DigitsVal(StripZ(t), 1, 0)
 
 \* resolved = [label, num (NONE = hash), mode]
 Resolve(f, rules, hasBranch, b) ==
